@@ -41,6 +41,15 @@ def session(rng, tier):
                                      f"{who} set fragmentation {rng.choice('TF')}", f"{who} set multicast_relay T",
                                      f"{who} write {rng.choice([0o1, 0o2, 0o11, 0o3333])} {rng.choice([1, 70])} {rbytes(rng, rng.choice([3, 60]))} 56",
                                      f"{who} write {rng.choice([0o1, 0o5])} 5 {rbytes(rng, 4)} {rng.choice([0o1, 0o5, 0])}"]))
+        if rng.random() < 0.25:
+            # multicasting switched off the documented way (allow_multicast, then node_address), then a level change
+            who = rng.randrange(n)
+            addr = next((int(t[t.index("new") + 4]) for t in (o.split() for o in ops)
+                         if "new" in t and t[t.index("new") + 1] == f"n{who}" and t[t.index("new") + 2] != "routing"), None)
+            if addr is not None:
+                extra += [f"n{who} set allow_multicast F", f"n{who} set node_address {addr}"]
+                if rng.random() < 0.7:
+                    extra.append(f"n{who} set multicast_level {rng.choice([0, 1, 2, 3, 4])}")
         pos = rng.randint(n + 1, len(ops)) if len(ops) > n + 1 else len(ops)
         ops = ops[:pos] + extra + ops[pos:]
         # node kinds routing cannot write/multicast… generator already respects writers; filter illegal extras
@@ -86,7 +95,18 @@ class C07(PropCheck):
                 continue
             names = l.split(" ; ")
             what = None
+            rid_of, stale, cls = {}, set(), None
             for k, (name, part) in enumerate(zip(names, io.split(" ; "))):
+                t = name.split()
+                if "new" in t and len(t) > t.index("new") + 3:
+                    rid_of[t[t.index("new") + 1]] = int(t[t.index("new") + 3])
+                # `allow_multicast` is a plain attribute that takes effect "when setting the node_address"
+                # (docs/network_docs/network_api.rst): the node is not judged between the two assignments
+                if len(t) >= 3 and t[1] == "set" and t[0] in rid_of:
+                    if t[2] == "allow_multicast":
+                        stale.add(rid_of[t[0]])
+                    elif t[2] == "node_address":
+                        stale.discard(rid_of[t[0]])
                 f = part.split(" ~ ")
                 if len(f) != 4 or " all=" not in f[1] and not f[0].count(" all="):
                     continue
@@ -100,11 +120,15 @@ class C07(PropCheck):
                         continue
                     rid, addr, lvl, am, pfx, sfx = ent.split("/")
                     rid, addr, lvl, am, pfx, sfx = int(rid), int(addr), int(lvl), am == "1", int(pfx), bytes.fromhex(sfx)
+                    if rid in stale:
+                        continue
                     r = radios[rid]
                     if int(r["cfg"]) & 3 != 3 or r["ce"] != "1":
                         what = f"node {oct(addr)} is not listening (CONFIG={r['cfg']} CE={r['ce']})"
                     elif int(r["rxen"]) != 0x3F:
                         what = f"node {oct(addr)}: open pipes EN_RXADDR={r['rxen']} (expected all six)"
+                    elif int(r["aw"]) != 3:
+                        what = f"node {oct(addr)}: address width SETUP_AW={r['aw']} (expected 3 = five bytes)"
                     elif int(r["aa"]) != 0x3E:
                         what = f"node {oct(addr)}: EN_AA={r['aa']} (expected auto-ack on pipes 1-5, off on pipe 0)"
                     elif int(r["dyn"]) != 0x3F or not int(r["feat"]) & 4:
@@ -115,11 +139,15 @@ class C07(PropCheck):
                             exp = phys_addr(addr, p, am, pfx, sfx, lvl)
                             if got[p] != exp:
                                 what = f"node {oct(addr)}: pipe {p} listens on {got[p].hex()}, its address is {exp.hex()}"
+                                if p == 0 and not am and len(t) >= 3 and t[1:3] == ["set", "multicast_level"] \
+                                        and rid_of.get(t[0]) == rid:
+                                    cls = "mclvl-no-multicast"   # open known finding (C07_finding_multicast_level)
                                 break
                     if what:
                         break
                 if what:
-                    out.append(Finding(l, f"op {k} `{name if k else ' '.join(name.split()[3:])}`: {what}", {"op_index": k}))
+                    out.append(Finding(l, f"op {k} `{name if k else ' '.join(name.split()[3:])}`: {what}",
+                                       {"op_index": k, **({"class": cls} if cls else {})}))
                     break
         seen = {f.case for f in out}
         out += [f for f in judge_defaults(triples, self.impl) if f.case not in seen]
